@@ -444,7 +444,8 @@ def ExactlyTop (s : State) : Prop :=
     operators are configured with `lifetime ≥ 1` and `2·B <` their margin; a record lands at most `B` ticks after it was
     stamped; time does not pass beyond the moment the pinger's next `touch()` must have landed (`nextKA + B`: the pinger
     sleeps at most `lifetime − margin` after the previous landing, `asyncio.sleep` wakes it on time, the call takes ≤ B);
-    nobody else writes under an operator's identity; and no operator acts on an older view (`deliverStale`). -/
+    nobody else writes under an operator's identity; and an operator acts on an older view (`deliverStale`) only if it is
+    benign (`benignView`: same verdict and same cleaning as the current status would give). -/
 def Allowed (u B : Int) (s : State) : Label → Prop
   | .start _ _ L => 1 ≤ L ∧ 2 * B < marginT u L
   | .keepalive _ lag => (lag : Int) ≤ B
@@ -452,7 +453,7 @@ def Allowed (u B : Int) (s : State) : Label → Prop
   | .tick d => ∀ i o k, s.ops i = some o → o.alive = true → o.nextKA = some k → s.now + d ≤ k + B
   | .expire j => ∀ i o k, s.ops i = some o → o.alive = true → o.nextKA = some k →
       latestDeadline u s.status j s.now ≤ k + B
-  | .deliverStale _ _ => False
+  | .deliverStale i view => ∀ o, s.ops i = some o → benignView u s i o.prio view = true   -- old views only if benign
   | .exitBegin _ => False          -- timely runs exit in the proper order (`exit`)
   | .foreign j _ => s.ops j = none
   | _ => True
